@@ -295,8 +295,15 @@ where
         // In the DISCARDING state, any incoming frames on the connection MUST
         // be silently discarded until the peer's close frame is received
         // (AMQP 1.0 section 2.4.6).
-        if matches!(self.connection.local_state(), ConnectionState::Discarding)
-            && !matches!(frame.body, FrameBody::Close(_))
+        //
+        // Once the local close has been sent (CLOSE SENT) the peer may still have frames in
+        // flight that it sent before it saw the close. They are legal, nobody is left to
+        // take them, and they must not turn a clean close into an error: they are dropped
+        // as well.
+        if matches!(
+            self.connection.local_state(),
+            ConnectionState::Discarding | ConnectionState::CloseSent
+        ) && !matches!(frame.body, FrameBody::Close(_))
         {
             return Ok(Running::Continue);
         }
